@@ -474,6 +474,49 @@ impl<'a> From<parsing::Argument<'a>> for Parameter {
     }
 }
 
+/// Replaces the inferred bounds that can never be resolved because they depend on the very impl
+/// they guard: a bound for the derived trait on a field type mentioning the deriving type by its
+/// name (`Option<Box<List<T>>>: Debug` on the `Debug` impl of `List<T>`).
+///
+/// Like the standard derives do, the type parameters occurring in such a field type are bounded
+/// instead (`T: Debug`).
+pub(crate) fn break_recursive_bounds(
+    bounds: Vec<syn::WherePredicate>,
+    ident: &syn::Ident,
+    type_params: &[&syn::Ident],
+    trait_ident: &syn::Ident,
+) -> Vec<syn::WherePredicate> {
+    fn mentions(tokens: TokenStream, ident: &syn::Ident) -> bool {
+        tokens.into_iter().any(|tt| match tt {
+            proc_macro2::TokenTree::Ident(i) => i == *ident,
+            proc_macro2::TokenTree::Group(g) => mentions(g.stream(), ident),
+            _ => false,
+        })
+    }
+
+    let inferred: syn::TypeParamBound =
+        parse_quote! { derive_more::core::fmt::#trait_ident };
+
+    bounds
+        .into_iter()
+        .flat_map(|predicate| match &predicate {
+            syn::WherePredicate::Type(p)
+                if p.lifetimes.is_none()
+                    && p.bounds.len() == 1
+                    && p.bounds[0] == inferred
+                    && mentions(p.bounded_ty.to_token_stream(), ident) =>
+            {
+                type_params
+                    .iter()
+                    .filter(|param| mentions(p.bounded_ty.to_token_stream(), param))
+                    .map(|param| parse_quote! { #param: #inferred })
+                    .collect()
+            }
+            _ => vec![predicate],
+        })
+        .collect()
+}
+
 /// Representation of a formatting placeholder.
 #[derive(Debug, Eq, PartialEq)]
 struct Placeholder {
